@@ -176,3 +176,251 @@ MUTANTS += [
     {"id": "C04-benign-color-shift", "prop": "C04", "benign": True,
      "edits": [("src/decoder.rs", "            4 => value / 256,", "            4 => value >> 8,")]},
 ]
+
+
+# ---- refactoring shapes the value-based rules see through (helper extraction, loop <-> iterator chain, if-chain <-> match,
+# ---- shifts <-> divisions, clamp <-> min, un-nested helper) and breaking changes hidden in those shapes -----------------------------
+_MOUSE_NAME_CHAIN = """        let button = event & 3;
+        let name = if event & 64 != 0 {
+            if button == 0 {
+                KeyName::MouseWheelDown
+            } else if button == 1 {
+                KeyName::MouseWheelUp
+            } else {
+                KeyName::MouseMove
+            }
+        } else if button == 0 {
+            KeyName::MouseLeft
+        } else if button == 1 {
+            KeyName::MouseMiddle
+        } else if button == 2 {
+            KeyName::MouseRight
+        } else {
+            KeyName::MouseMove
+        };
+"""
+_XTGETTCAP_DOC = "/// Request Termcap/Terminfo String (XTGETTCAP)\n"
+_MOUSE_NAME_HELPER = """/// Name of the button (or wheel direction) denoted by SGR mouse event code
+fn mouse_key_name(event: usize) -> KeyName {
+    let is_wheel = event & 64 != 0;
+    match (is_wheel, event & 3) {
+        (true, 0) => KeyName::MouseWheelDown,
+        (true, 1) => KeyName::MouseWheelUp,
+        (false, 0) => KeyName::MouseLeft,
+        (false, 1) => KeyName::MouseMiddle,
+        (false, 2) => KeyName::MouseRight,
+        _ => KeyName::MouseMove,
+    }
+}
+
+"""
+_UTF8_LOOP = """    for byte in slice[1..].iter() {
+        code <<= 6;
+        code |= (*byte as u32) & 63;
+    }
+"""
+_UTF8_HEAD = "    let mut code: u32 = match slice.len() {"
+_COMPONENT_FN = """    fn parse_component(string: &str) -> Option<u8> {
+        let value = usize::from_str_radix(string, 16).ok()?;
+        let value = match string.len() {
+            4 => value / 256,
+            3 => value / 16,
+            2 => value,
+            1 => value * 17,
+            _ => return None,
+        };
+        Some(value.clamp(0, 255) as u8)
+    }
+"""
+_COMPONENT_FN_TOP = """fn parse_component(string: &str) -> Option<u8> {
+    let value = usize::from_str_radix(string, 16).ok()?;
+    let shift = match string.len() {
+        4 => 8,
+        3 => 4,
+        2 => 0,
+        1 => return Some((value << 4 | value) as u8),
+        _ => return None,
+    };
+    u8::try_from((value >> shift).min(u8::MAX as usize)).ok()
+}
+
+"""
+_SGR_INDEXED = """            let mut index = number_decode(cmds.next()?)?;
+            if index < 16 {
+                Some(COLORS[index])
+            } else if index < 232 {
+                index -= 16;
+                let ri = index / 36;
+                index -= ri * 36;
+                let gi = index / 6;
+                index -= gi * 6;
+                let bi = index;
+                Some(RGBA::new(CUBE[ri], CUBE[gi], CUBE[bi], 255))
+            } else if index < 256 {
+                let v = GREYS[index - 232];
+                Some(RGBA::new(v, v, v, 255))
+            } else {
+                None
+            }
+"""
+_SGR_INDEXED_MATCH = """            match number_decode(cmds.next()?)? {
+                index @ 0..=15 => Some(COLORS[index]),
+                index @ 16..=231 => {
+                    let cube_index = index - CUBE_OFFSET;
+                    let ri = cube_index / 36;
+                    let gi = cube_index % 36 / 6;
+                    let bi = cube_index % 6;
+                    Some(RGBA::new(CUBE[ri], CUBE[gi], CUBE[bi], 255))
+                }
+                index @ 232..=255 => {
+                    let v = GREYS[index - GREYS_OFFSET];
+                    Some(RGBA::new(v, v, v, 255))
+                }
+                _ => None,
+            }
+"""
+_SGR_INDEXED_DESC = """            let index = number_decode(cmds.next()?)?;
+            if index >= 256 {
+                None
+            } else if index >= 232 {
+                let v = GREYS[index - 232];
+                Some(RGBA::new(v, v, v, 255))
+            } else if index >= 16 {
+                let cube = index - 16;
+                let (ri, gi, bi) = (cube / 36, cube / 6 % 6, cube % 6);
+                Some(RGBA::new(CUBE[ri], CUBE[gi], CUBE[bi], 255))
+            } else {
+                Some(COLORS[index])
+            }
+"""
+_OFFSET_CONSTS = "const CUBE_OFFSET: usize = 16;\nconst GREYS_OFFSET: usize = 232;\n"
+_KITTY_MODS = """                let mode = match modes.next() {
+                    Some(mode) if mode > 1 => KeyMod::from_bits((mode - 1) as u32),
+                    _ => KeyMod::EMPTY,
+                };
+"""
+_KITTY_MODS_CHAIN = """                let mode = modes
+                    .next()
+                    .filter(|value| *value > 1)
+                    .map_or(KeyMod::EMPTY, |value| KeyMod::from_bits((value - 1) as u32));
+"""
+
+MUTANTS += [
+    {"id": "C04-benign-mouse-name-helper", "prop": "C04", "benign": True,
+     "edits": [(D, _MOUSE_NAME_CHAIN, "        let name = mouse_key_name(event);\n"), (D, _XTGETTCAP_DOC, _MOUSE_NAME_HELPER + _XTGETTCAP_DOC)]},
+    {"id": "C04-benign-mouse-mods-helper-alias", "prop": "C04", "benign": True,
+     "edits": [(D, "        let mut mode = KeyMod::from_bits(((event >> 2) & 7) as u32);\n", "        let code = event;\n        let mut mode = mouse_mods(code);\n"),
+               (D, _XTGETTCAP_DOC, "fn mouse_mods(event: usize) -> KeyMod {\n    KeyMod::from_bits(((event / 4) % 8) as u32)\n}\n\n" + _XTGETTCAP_DOC)]},
+    {"id": "C04-benign-utf8-fold", "prop": "C04", "benign": True,
+     "edits": [(D, _UTF8_HEAD, "    let head: u32 = match slice.len() {"),
+               (D, _UTF8_LOOP, "    let code = slice[1..]\n        .iter()\n        .fold(head, |code, byte| (code << 6) | ((*byte as u32) & 63));\n")]},
+    {"id": "C04-benign-utf8-ref-pattern-loop", "prop": "C04", "benign": True,
+     "edits": [(D, _UTF8_LOOP, "    for &byte in &slice[1..] {\n        code = (code << 6) | (byte as u32 & 0x3f);\n    }\n")]},
+    {"id": "C04-benign-color-shifts-min", "prop": "C04", "benign": True,
+     "edits": [(D, "            4 => value / 256,\n            3 => value / 16,", "            4 => value >> 8,\n            3 => value >> 4,"),
+               (D, "        Some(value.clamp(0, 255) as u8)", "        Some(value.min(u8::MAX as usize) as u8)")]},
+    {"id": "C04-benign-color-component-unnested", "prop": "C04", "benign": True,
+     "edits": [(D, _COMPONENT_FN, ""), (D, "fn parse_color(color_str: &str) -> Option<RGBA> {", _COMPONENT_FN_TOP + "fn parse_color(color_str: &str) -> Option<RGBA> {")]},
+    {"id": "C04-benign-sgr-color-match-ranges", "prop": "C04", "benign": True,
+     "edits": [(D, _SGR_INDEXED, _SGR_INDEXED_MATCH), (D, "const COLORS: [RGBA; 16] = [", _OFFSET_CONSTS + "const COLORS: [RGBA; 16] = [")]},
+    {"id": "C04-benign-sgr-color-descending-chain", "prop": "C04", "benign": True, "edits": [(D, _SGR_INDEXED, _SGR_INDEXED_DESC)]},
+    {"id": "C04-benign-kitty-mods-option-chain", "prop": "C04", "benign": True, "edits": [(D, _KITTY_MODS, _KITTY_MODS_CHAIN)]},
+    {"id": "C04-benign-named-colour-helper", "prop": "C04", "benign": True,
+     "edits": [(D, "            Some(v @ 30..=37) => face.fg = Some(COLORS[v - 30]),\n            Some(v @ 90..=97) => face.fg = Some(COLORS[v - 82]),\n",
+                "            Some(v @ (30..=37 | 90..=97)) => face.fg = Some(named_color(v - 30)),\n"),
+               (D, "fn sgr_face(data: &[u8]) -> FaceModify {", "fn named_color(offset: usize) -> RGBA {\n    COLORS[if offset >= 60 { offset - 52 } else { offset }]\n}\n\nfn sgr_face(data: &[u8]) -> FaceModify {")]},
+    # ---- breaking, in refactored shapes
+    {"id": "C04-mouse-helper-middle-right-swapped", "prop": "C04", "expect": "T5-MOUSE-TABLE",
+     "edits": [(D, _MOUSE_NAME_CHAIN, "        let name = mouse_key_name(event);\n"),
+               (D, _XTGETTCAP_DOC, _MOUSE_NAME_HELPER.replace("(false, 1) => KeyName::MouseMiddle", "(false, 1) => KeyName::MouseRight").replace("(false, 2) => KeyName::MouseRight", "(false, 2) => KeyName::MouseMiddle") + _XTGETTCAP_DOC)]},
+    {"id": "C04-mouse-helper-looks-at-bit-7", "prop": "C04", "expect": "T5-MOUSE",
+     "edits": [(D, _MOUSE_NAME_CHAIN, "        let name = mouse_key_name(event);\n"),
+               (D, _XTGETTCAP_DOC, _MOUSE_NAME_HELPER.replace("let is_wheel = event & 64 != 0;", "let is_wheel = event & 192 == 64;") + _XTGETTCAP_DOC)]},
+    {"id": "C04-mouse-mods-helper-shift-3", "prop": "C04", "expect": "T5-MOUSE",
+     "edits": [(D, "        let mut mode = KeyMod::from_bits(((event >> 2) & 7) as u32);\n", "        let mut mode = mouse_mods(event);\n"),
+               (D, _XTGETTCAP_DOC, "fn mouse_mods(event: usize) -> KeyMod {\n    KeyMod::from_bits(((event / 8) % 8) as u32)\n}\n\n" + _XTGETTCAP_DOC)]},
+    {"id": "C04-utf8-fold-shift-5", "prop": "C04", "expect": "T5-UTF8",
+     "edits": [(D, _UTF8_HEAD, "    let head: u32 = match slice.len() {"),
+               (D, _UTF8_LOOP, "    let code = slice[1..]\n        .iter()\n        .fold(head, |code, byte| (code << 5) | ((*byte as u32) & 63));\n")]},
+    {"id": "C04-utf8-fold-skips-first-continuation", "prop": "C04", "expect": "T5-UTF8",
+     "edits": [(D, _UTF8_HEAD, "    let head: u32 = match slice.len() {"),
+               (D, _UTF8_LOOP, "    let code = slice\n        .iter()\n        .skip(2)\n        .fold(head, |code, byte| (code << 6) | ((*byte as u32) & 63));\n")]},
+    {"id": "C04-color-min-254", "prop": "C04", "expect": "T8-COLOR-COMPONENT",
+     "edits": [(D, "        Some(value.clamp(0, 255) as u8)", "        Some(value.min(254) as u8)")]},
+    {"id": "C04-color-unnested-12bit-shift-3", "prop": "C04", "expect": "T8-COLOR-COMPONENT/decoder::parse_color/digits-3",
+     "edits": [(D, _COMPONENT_FN, ""), (D, "fn parse_color(color_str: &str) -> Option<RGBA> {", _COMPONENT_FN_TOP.replace("3 => 4,", "3 => 3,") + "fn parse_color(color_str: &str) -> Option<RGBA> {")]},
+    {"id": "C04-color-green-blue-swapped", "prop": "C04", "expect": "T8-COLOR-COMPONENT/decoder::parse_color/channel-order",
+     "edits": [(D, "    Some(RGBA::new(\n        parse_component(iter.next()?)?,\n        parse_component(iter.next()?)?,\n        parse_component(iter.next()?)?,\n        255,\n    ))",
+                "    let red = parse_component(iter.next()?)?;\n    let blue = parse_component(iter.next()?)?;\n    let green = parse_component(iter.next()?)?;\n    Some(RGBA::new(red, green, blue, 255))")]},
+    {"id": "C04-sgr-color-ranges-off-by-one", "prop": "C04", "expect": "T3-PALETTE",
+     "edits": [(D, _SGR_INDEXED, _SGR_INDEXED_MATCH.replace("index @ 16..=231", "index @ 16..=230").replace("index @ 232..=255", "index @ 231..=255")),
+               (D, "const COLORS: [RGBA; 16] = [", _OFFSET_CONSTS + "const COLORS: [RGBA; 16] = [")]},
+    {"id": "C04-sgr-color-green-modulo-wrong", "prop": "C04", "expect": "T3-PALETTE",
+     "edits": [(D, _SGR_INDEXED, _SGR_INDEXED_DESC.replace("cube / 6 % 6", "cube % 36 / 36"))]},
+    {"id": "C04-kitty-mods-chain-no-minus-one", "prop": "C04", "expect": "T4-KITTY-MODS",
+     "edits": [(D, _KITTY_MODS, _KITTY_MODS_CHAIN.replace("(value - 1) as u32", "value as u32"))]},
+    {"id": "C04-named-colour-helper-bright-offset", "prop": "C04", "expect": "T3-NAMED",
+     "edits": [(D, "            Some(v @ 30..=37) => face.fg = Some(COLORS[v - 30]),\n            Some(v @ 90..=97) => face.fg = Some(COLORS[v - 82]),\n",
+                "            Some(v @ (30..=37 | 90..=97)) => face.fg = Some(named_color(v - 30)),\n"),
+               (D, "fn sgr_face(data: &[u8]) -> FaceModify {", "fn named_color(offset: usize) -> RGBA {\n    COLORS[if offset >= 60 { offset - 53 } else { offset }]\n}\n\nfn sgr_face(data: &[u8]) -> FaceModify {")]},
+]
+
+_STATUS_LOOP = """        for status in [
+            NotRecognized,
+            Enabled,
+            Disabled,
+            PermanentlyEnabled,
+            PermanentlyDisabled,
+        ]
+        .iter()
+        {
+            if code == *status as usize {
+                return Some(*status);
+            }
+        }
+        None
+"""
+_STATUS_MATCH = """        match code {
+            0 => Some(NotRecognized),
+            1 => Some(Enabled),
+            2 => Some(Disabled),
+            3 => Some(PermanentlyEnabled),
+            4 => Some(PermanentlyDisabled),
+            _ => None,
+        }
+"""
+_DECMODE_TAIL = """        .iter()
+        {
+            if code == *mode as usize {
+                return Some(*mode);
+            }
+        }
+        None
+"""
+MUTANTS += [
+    {"id": "C04-benign-status-from-usize-match", "prop": "C04", "benign": True, "edits": [(T, _STATUS_LOOP, _STATUS_MATCH)]},
+    {"id": "C04-benign-decmode-from-usize-find", "prop": "C04", "benign": True,
+     "edits": [(T, "        for mode in [\n            VisibleCursor,", "        [\n            VisibleCursor,"),
+               (T, _DECMODE_TAIL, "        .iter()\n        .copied()\n        .find(|mode| *mode as usize == code)\n")]},
+    {"id": "C04-status-match-two-swapped", "prop": "C04", "expect": "T2-FROM-USIZE/terminal::DecModeStatus::from_usize/returned-element",
+     "edits": [(T, _STATUS_LOOP, _STATUS_MATCH.replace("1 => Some(Enabled)", "1 => Some(Disabled)").replace("2 => Some(Disabled)", "2 => Some(Enabled)"))]},
+    {"id": "C04-decmode-find-off-by-one", "prop": "C04", "expect": "T2-FROM-USIZE/terminal::DecMode::from_usize/",
+     "edits": [(T, "        for mode in [\n            VisibleCursor,", "        [\n            VisibleCursor,"),
+               (T, _DECMODE_TAIL, "        .iter()\n        .copied()\n        .find(|mode| *mode as usize >= code)\n")]},
+]
+
+_CPR_FIELDS = "            row: nums.next()?.checked_sub(1)?,\n            col: nums.next()?.checked_sub(1)?,"
+MUTANTS += [
+    {"id": "C04-benign-cpr-one-based-helper", "prop": "C04", "benign": True,
+     "edits": [(D, _CPR_FIELDS, "            row: cpr_coordinate(nums.next()?)?,\n            col: cpr_coordinate(nums.next()?)?,"),
+               (D, _XTGETTCAP_DOC, "/// coordinates of a cursor position report are 1-based\nfn cpr_coordinate(value: usize) -> Option<usize> {\n    value.checked_sub(1)\n}\n\n" + _XTGETTCAP_DOC)]},
+    {"id": "C04-cpr-helper-zero-based", "prop": "C04", "expect": "T7-FIELD-ORDER/<decoder::CursorPositionMatcherasdecoder::Matcher>::decode/base-Position",
+     "edits": [(D, _CPR_FIELDS, "            row: cpr_coordinate(nums.next()?)?,\n            col: cpr_coordinate(nums.next()?)?,"),
+               (D, _XTGETTCAP_DOC, "/// coordinates of a cursor position report are 1-based\nfn cpr_coordinate(value: usize) -> Option<usize> {\n    value.checked_sub(0)\n}\n\n" + _XTGETTCAP_DOC)]},
+]
+
+MUTANTS += [
+    {"id": "C04-benign-mouse-numbers-tuple-let", "prop": "C04", "benign": True,
+     "edits": [(D, "        let event = nums.next()?;\n        // coordinates are 1-based, zero is not a valid report\n        let col = nums.next()?.checked_sub(1)?;\n        let row = nums.next()?.checked_sub(1)?;\n",
+                "        // coordinates are 1-based, zero is not a valid report\n        let (event, col, row) = (\n            nums.next()?,\n            nums.next()?.checked_sub(1)?,\n            nums.next()?.checked_sub(1)?,\n        );\n")]},
+]
